@@ -1052,10 +1052,16 @@ pub fn tall(ctx: &GenCtx, rng: &mut Rng, run: u64) -> Option<Plan> {
         plan.ops.push(Op::Sign { proc: 0, msg: msg(rng, n), api: Api::Fn, cb: Cb::Accept, aux: Some(0) });
         plan.ops.push(Op::Send { key: 0, release: i as usize });
     }
-    plan.ops.push(Op::Inject { key: 0, counter: 1 + rng.below(1 << 14) });
+    // a low counter (every leaf index below 2^10, so that a key whose tall tree is mistaken for a smaller one
+    // still signs and the signature itself can be judged) ...
+    plan.ops.push(Op::Inject { key: 0, counter: rng.below(1000) });
     plan.ops.push(Op::Sign { proc: 0, msg: msg(rng, n), api: Api::ObjAux, cb: Cb::Accept, aux: Some(0) });
     plan.ops.push(Op::Send { key: 0, release: picks as usize });
-    for e in 0..=picks as usize {
+    // ... and a random one
+    plan.ops.push(Op::Inject { key: 0, counter: 1024 + rng.below((1u64 << hts.iter().sum::<u32>()) - 1024) });
+    plan.ops.push(Op::Sign { proc: 0, msg: msg(rng, n), api: Api::Fn, cb: Cb::Accept, aux: None });
+    plan.ops.push(Op::Send { key: 0, release: picks as usize + 1 });
+    for e in 0..=(picks as usize + 1) {
         for entry in ALL_ENTRIES {
             plan.ops.push(Op::Deliver { env: e, fault: WireFault::None, entry });
         }
